@@ -80,5 +80,28 @@ theorem no_grad_mode_untracked (st st' : TState α) (v : NDArray α) (dt : DType
   let ⟨n, a, b, c, d, _⟩ := untracked_has_no_history st st' v dt rg children back k h (by simp [hmode])
   ⟨n, a, b, c, d⟩
 
+/-- **`backward()` leaves the modes alone** — whether it completes or raises, on any state: a `backward()` called inside an
+    active `no_grad` / `retain_grads` block does not end (or start) the block. -/
+theorem backward_keeps_modes [Add α] (st : TState α) (root : Nat) (g : NDArray α) :
+    (Synap.Api.backward st root g).1.modes = st.modes := by
+  unfold Synap.Api.backward
+  split
+  · split
+    · rfl
+    · split
+      · rfl
+      · dsimp only
+        split <;> rfl
+  · rfl
+
+/-- **An untracked region stays untracked across a `backward()` inside it**: with tracking off, whatever is computed right
+    after a `backward()` of an earlier recorded graph (complete or rejected) still holds no operands and no `grad_fn`. -/
+theorem untracked_after_backward [Add α] (st st' : TState α) (root : Nat) (g v : NDArray α) (dt : DType) (rg : Bool)
+    (children : List Nat) (back : Option (NDArray α → Option (List (Option (NDArray α))))) (k : Nat)
+    (hmode : st.modes.grad = false)
+    (h : mkTensor (Synap.Api.backward st root g).1 v dt rg children back = some (st', k)) :
+    ∃ n, st'.g[k]? = some n ∧ n.children = [] ∧ n.back = none ∧ n.reqGrad = false :=
+  no_grad_mode_untracked _ st' v dt rg children back k h (by rw [backward_keeps_modes]; exact hmode)
+
 end Api
 end Props.C17
